@@ -212,3 +212,55 @@ def noise(root):
         open(p, "w").write(out)
         total += n.count
     return total
+
+
+class _Swap(ast.NodeTransformer):
+    """T4: swap adjacent, mutually independent, side-effect-free simple assignments"""
+
+    def __init__(self):
+        self.count = 0
+
+    @staticmethod
+    def _simple(s):
+        if not (isinstance(s, ast.Assign) and len(s.targets) == 1 and isinstance(s.targets[0], ast.Name)):
+            return None
+        for n in ast.walk(s.value):
+            if isinstance(n, (ast.Call, ast.Await, ast.Yield, ast.NamedExpr, ast.Subscript, ast.Attribute)):
+                return None
+        reads = {n.id for n in ast.walk(s.value) if isinstance(n, ast.Name)}
+        return s.targets[0].id, reads
+
+    def _body(self, body):
+        out = list(body)
+        i = 0
+        while i + 1 < len(out):
+            a, b = self._simple(out[i]), self._simple(out[i + 1])
+            if a and b and a[0] != b[0] and a[0] not in b[1] and b[0] not in a[1]:
+                out[i], out[i + 1] = out[i + 1], out[i]
+                self.count += 1
+                i += 2
+            else:
+                i += 1
+        return out
+
+    def generic_visit(self, node):
+        super().generic_visit(node)
+        for fld in ("body", "orelse", "finalbody"):
+            b = getattr(node, fld, None)
+            if isinstance(b, list) and b and isinstance(b[0], ast.stmt):
+                setattr(node, fld, self._body(b))
+        return node
+
+
+def swap_independent(root):
+    total = 0
+    for p in _py_files(root):
+        tree = ast.parse(open(p).read())
+        s = _Swap()
+        tree = s.visit(tree)
+        ast.fix_missing_locations(tree)
+        out = ast.unparse(tree) + "\n"
+        compile(out, p, "exec")
+        open(p, "w").write(out)
+        total += s.count
+    return total
